@@ -6,7 +6,7 @@
    setTaggedValue, starting from any graph [g] and any tagged values [tg]. *)
 From Coq Require Import List Arith Bool.
 Import ListNotations.
-From ZI Require Import Model.Ro Model.Attrs Proofs.Attrs.
+From ZI Require Import Model.Ro Model.Attrs Proofs.Attrs Gen.AttrsKernel Proofs.AttrsKernel.
 
 (* I.get(name), after any history, memo or not: the description defined directly by the first
    interface of I.__iro__ that defines the name; the default iff none does *)
@@ -129,6 +129,59 @@ Theorem C15_iro_members : forall g r, bases g r = [] ->
   forall z, In z (fresh_sro f r g x) <-> z = r \/ Reach g x z.
 Proof. exact fresh_sro_mem. Qed.
 Print Assumptions C15_iro_members.
+
+(* ---- the kernel regenerated from interface.py on this run (Gen/AttrsKernel.v, written by the
+   fail-closed translator harness/translate/attrs.py) IS the model the theorems above are about *)
+Theorem C15_generated_get_eq_model : forall w s x n,
+  gen_direct w x n = direct w x n /\ gen_get w s x n = get w s x n.
+Proof. intros; split; [apply gen_direct_eq_model | apply gen_get_eq_model]. Qed.
+Print Assumptions C15_generated_get_eq_model.
+
+Theorem C15_generated_accessors_eq_model : forall w s x n,
+  gen_getitem w s x n = getitem w s x n /\
+  gen_query_description_for w s x n = query_description_for w s x n /\
+  gen_contains w s x n = contains w s x n.
+Proof.
+  intros; repeat split;
+    [apply gen_getitem_eq_model | apply gen_query_description_for_eq_model | apply gen_contains_eq_model].
+Qed.
+Print Assumptions C15_generated_accessors_eq_model.
+
+Theorem C15_generated_names_eq_model : forall w s x,
+  gen_names_direct w x = names_direct w x /\
+  gen_names_all w (w_fuel w) (st_graph s) x = names_all w (w_fuel w) (st_graph s) x /\
+  gen_iter w s x = iter w s x.
+Proof. exact gen_names_eq_model. Qed.
+Print Assumptions C15_generated_names_eq_model.
+
+Theorem C15_generated_nad_all_eq_model : forall w s x, gen_nad_all w s x = nad_all w s x.
+Proof. exact gen_nad_all_eq_model. Qed.
+Print Assumptions C15_generated_nad_all_eq_model.
+
+Theorem C15_generated_tagged_eq_model : forall s x t,
+  gen_query_tagged s x t = query_tagged s x t /\ gen_get_tagged s x t = get_tagged s x t.
+Proof. exact gen_query_tagged_eq_model. Qed.
+Print Assumptions C15_generated_tagged_eq_model.
+
+Theorem C15_generated_tags_eq_model : forall s x, gen_tagged_tags s x = tagged_tags s x.
+Proof. exact gen_tagged_tags_eq_model. Qed.
+Print Assumptions C15_generated_tags_eq_model.
+
+Theorem C15_generated_validate_eq_model : forall fails s x errors,
+  gen_validate fails s x errors = validate fails s x errors.
+Proof. exact gen_validate_eq_model. Qed.
+Print Assumptions C15_generated_validate_eq_model.
+
+(* changed(): every visited node (x and its transitive dependents) gets the fresh order and
+   _v_attrs = None; nobody else changes *)
+Theorem C15_generated_changed_eq_model : forall w s x bs y,
+  let s' := set_bases w s x bs in
+  (st_iro s' y, st_memo s' y) =
+    if reachesb (w_fuel w) (st_graph s') y x
+    then gen_changed_node (fresh_sro (w_fuel w) 0 (st_graph s') y) (st_iro s y, st_memo s y)
+    else (st_iro s y, st_memo s y).
+Proof. exact gen_changed_eq_model. Qed.
+Print Assumptions C15_generated_changed_eq_model.
 
 (* ---- non-vacuity: the README diamond.
    0 Interface; 1 IBase (foo); 2 IBase1(IBase); 3 IBase2(IBase) overrides foo; 4 ISub(IBase1, IBase2).
